@@ -89,7 +89,9 @@ impl DealerSocketOutgoingProcessor {
           zmtp_frames_for_logical_message.len()
         );
 
-        match self.outgoing_orchestrator.route_message(zmtp_frames_for_logical_message, false).await {
+        // Only the non-blocking route hands the message back on every failure. The awaiting one gives
+        // it to a timed send that drops it when SNDTIMEO expires, and this message was already accepted.
+        match self.outgoing_orchestrator.try_route_sync(zmtp_frames_for_logical_message) {
           Ok(()) => {
             self.pending_backlog.fetch_sub(1, std::sync::atomic::Ordering::AcqRel);
             self.queue_space_notifier.notify_one();
@@ -105,6 +107,8 @@ impl DealerSocketOutgoingProcessor {
               self.core_handle
             );
             self.pending_queue.lock().await.push_front(returned);
+            // every peer is full (or none is left): look again shortly
+            tokio::time::sleep(Duration::from_millis(1)).await;
             self.queue_activity_notifier.notify_one();
           }
         }
@@ -649,9 +653,13 @@ impl DealerSocket {
 
     match self.outgoing_orchestrator.route_message(zmtp_wire_frames, false).await {
       Ok(()) => Ok(()),
-      Err((returned, _)) => {
+      // no peer, or every peer full: the message came back and waits in the pending queue
+      Err((returned, ZmqError::ResourceLimitReached)) => {
         self.queue_message_or_error(returned, global_sndhwm, global_sndtimeo).await
       }
+      // anything else (SNDTIMEO expired inside the send, connection closed): the message is gone and
+      // was not sent, so the caller must hear about it rather than see an empty message queued
+      Err((_, e)) => Err(e),
     }
   }
 
